@@ -952,7 +952,16 @@ def _cls_c16(t, impl):
         return "rt:%s:%s" % (t[1], impl.split(" ", 1)[0]), True
     if op == "f64json":
         return "f64json:" + impl.split(" ", 1)[0], True
+    if op == "written":
+        return "written:" + " ".join(impl.split()[1:3]), True
     return None, False
+
+
+def _oracle_c16(t, impl):
+    """model-free: a document written by the library's own to_json is loaded by its own tagged entry point"""
+    if t[0] == "written" and not impl.endswith(" ok"):
+        return "a document written by to_json is refused by from_json: %s" % impl
+    return None
 
 
 def _key_c16(t, il, ml):
@@ -971,8 +980,11 @@ PROPS["C16"] = Prop(
          "40 bare doubles. `ser`: bincode bytes of the implementation vs the bytes the Lean codec model predicts (exact). "
          "`rt`: model-free round trips on the real code - to_json/from_json, the tagged from_json entry point, bincode - "
          "with == and a query battery; `f64json`: the JSON text layer on a bare double",
-    classify=_cls_c16, mode="exact", finding_key=_key_c16, exhaustive=lambda tier: False,
-    correspondence_only=lambda t, il, ml: bool(t) and t[0] == "ser" and il.startswith("B ") and ml.startswith("B "),
+    classify=_cls_c16, mode="exact", finding_key=_key_c16, oracle=_oracle_c16, exhaustive=lambda tier: False,
+    # the model's bytes / the model's writer form differ from the code's while the code's own round trip holds:
+    # the model no longer describes the format (correspondence), no property is violated by that alone
+    correspondence_only=lambda t, il, ml: bool(t) and ((t[0] == "ser" and il.startswith("B ") and ml.startswith("B "))
+                                                       or (t[0] == "written" and il.endswith(" ok"))),
     trusted=["Lean model of the bincode 1.3 wire format and of serde's derive layout for Dual, Dual2, Number, PPSpline, "
              "NamedCal, FXRates, Curve (lean/RateslibModel/Model/Serde.lean), tied to the code by byte-exact comparison",
              "serde, serde_json, ryu, bincode, chrono's and ndarray's serde impls: implementation trusted; validated by "
